@@ -47,7 +47,8 @@ let nb_ (t : toks) : bool = ni t <> 0
 let at_end (t : toks) : bool = t.l = []
 
 let err_s (e : M.err) : string =
-  match e with M.EPanic -> "PANIC" | M.ENone -> "NONE" | M.E c -> "E" ^ zs c
+  match e with M.EPanic -> "PANIC" | M.ENone -> "NONE"
+  | M.E c -> let s = zs c in if s = "-3" then "PE:AccountBorrowFailed" else "E" ^ s
 
 let res_s (f : 'a -> string) (r : 'a M.res) : string =
   match r with M.Ok a -> f a | M.Err e -> err_s e
